@@ -18,7 +18,7 @@ import (
 func init() {
 	common := func(id string, emphasis int, rule string) *Prop {
 		return &Prop{
-			ID: id, Quick: 4000, Thorough: 200000,
+			ID: id, Quick: 4000, Thorough: 600000,
 			Gen:  func(seed uint64, tier string) *plan.Plan { return genAgg(seed, tier, emphasis) },
 			Run:  func(pl *plan.Plan, out *plan.Outcome) { runAgg(pl, out, id) },
 			Real: []string{"pkg/intermediate AggregationProcess (AggregateMsgByFlowKey, ForAllExpiredFlowRecordsDo, GetRecords, GetNumFlows, GetExpiryFromExpirePriorityQueue, ResetStatAndThroughputElementsInRecord, ForAllRecordsDo), priority queue", "pkg/entities records", "pkg/registry"},
